@@ -645,16 +645,38 @@ READER_DRIVER = r"""
 #[cfg(test)]
 mod verif_replay {
     use super::*;
-    use std::io::{Cursor, Read};
+    use std::io::{Cursor, Read, Seek, SeekFrom};
 %(helpers)s
-    pub(crate) fn dump(tag: &str, r: &PagedReader<Cursor<Vec<u8>>>) {
+    /// device wrapper: after `arm`, the listed transfers are short and operation number `fault_at` fails
+    pub(crate) struct FaultDev { inner: Cursor<Vec<u8>>, ops: i64, fault_at: i64, shorts: Vec<usize>, armed: bool }
+    impl FaultDev {
+        fn new(d: Vec<u8>) -> Self { FaultDev { inner: Cursor::new(d), ops: 0, fault_at: -1, shorts: Vec::new(), armed: false } }
+        fn arm(&mut self, fault_at: i64, shorts: Vec<usize>) { self.ops = 0; self.fault_at = fault_at; self.shorts = shorts; self.armed = true; }
+        fn tick(&mut self) -> std::io::Result<()> {
+            let i = self.ops; self.ops += 1;
+            if self.armed && i == self.fault_at { return Err(std::io::Error::new(std::io::ErrorKind::Other, "injected device error")); }
+            Ok(())
+        }
+    }
+    impl Read for FaultDev {
+        fn read(&mut self, buf: &mut [u8]) -> std::io::Result<usize> {
+            self.tick()?;
+            let mut n = buf.len();
+            if self.armed && !self.shorts.is_empty() && n > 0 { let k = self.shorts.remove(0); if k < n { n = k; } }
+            self.inner.read(&mut buf[..n])
+        }
+    }
+    impl Seek for FaultDev {
+        fn seek(&mut self, p: SeekFrom) -> std::io::Result<u64> { self.tick()?; self.inner.seek(p) }
+    }
+    pub(crate) fn dump(tag: &str, r: &PagedReader<FaultDev>) {
         let pn = match r.page_num { Some(p) => p as i64, None => -1 };
-        println!("VR {}_offset={} {}_pagenum={} {}_buf={} {}_dev=x{}", tag, r.offset, tag, pn, tag, vhex(&r.page_buffer), tag, vhex(r.reader.get_ref()));
+        println!("VR {}_offset={} {}_pagenum={} {}_buf={} {}_dev=x{}", tag, r.offset, tag, pn, tag, vhex(&r.page_buffer), tag, vhex(r.reader.inner.get_ref()));
     }
     #[test]
     fn verif_replay_case() {
         let dev: Vec<u8> = %(dev)s;
-        let mut r = PagedReader::new(Cursor::new(dev), 1024).unwrap();
+        let mut r = PagedReader::new(FaultDev::new(dev), 1024).unwrap();
         let cached: i64 = %(cached)d;
         if cached >= 0 {
             r.seek_physical(cached as u64 * 1024).unwrap();
@@ -663,6 +685,7 @@ mod verif_replay {
         }
         r.offset = %(offset)d;
         dump("pre", &r);
+        r.reader.arm(%(fault_at)d, vec![%(shorts)s]);
         %(op)s
         dump("post", &r);
     }
@@ -693,11 +716,17 @@ class ReaderReplay:
         npages = mval(model, st["npages"])
         pre = dict(npages=npages, offset=mval(model, st["offset"]), cached=(mval(model, st["cached"]) if st["cached"] is not None else -1),
                    dev=seal_device(I, model, st["content"].fn, npages), sk={n: mval(model, z3.BitVec(n, 64)) for n in ("sk_i", "sk_q", "sk_j")})
+        dev = o["dev"]
+        pre["fault_at"] = mval(model, dev.fault_at) if dev.fault_at is not None else -1
+        if pre["fault_at"] > 10 ** 6:
+            pre["fault_at"] = -1
+        pre["shorts"] = [mval(model, k) for what, k in dev.ks if what == "r"]
         pre.update(self.extract_extra(model, o))
         return pre
 
     def run(self, I, scenario, claim_name, pre):
-        code = READER_DRIVER % dict(helpers=HELPERS, dev=rust_bytes(pre["dev"]), cached=pre["cached"], offset=pre["offset"], op=self.op_rust(pre))
+        code = READER_DRIVER % dict(helpers=HELPERS, dev=rust_bytes(pre["dev"]), cached=pre["cached"], offset=pre["offset"], op=self.op_rust(pre),
+                                    fault_at=pre.get("fault_at", -1), shorts=",".join(str(x) for x in pre.get("shorts", [])))
         rc, out = run_rust_test(I.crate_dir, "paged_reader.rs", code)
         kv = parse_kv(out)
         info = dict(pre={k: (len(v) if isinstance(v, bytes) else v) for k, v in pre.items()}, rust=code)
@@ -754,6 +783,8 @@ def _read_extra(model, o):
 
 def _read_rebuild(I, pre, kv):
     rd, dev = native_reader_obj(I, pre, kv, "post")
+    if pre.get("fault_at", -1) >= 0 and kv.get("res", "").startswith("err"):
+        dev.log.append(("fault", "native", pre["fault_at"]))
     st = dict(npages=U64(pre["npages"]), offset=U64(pre["offset"]), cached=None, content=CBuf(pre["dev"]))
     return dict(res=parse_result(kv), rd=rd, buf=CBuf(bytes.fromhex(kv.get("dst", "")), pre["n"]), n=U64(pre["n"]), dev=dev, st=st,
                 pre_buf=CBuf(pre["dst"], pre["n"]))
@@ -867,3 +898,150 @@ def history_scenarios(tier="quick"):
     out.append(Scenario("history ... then PagedReader::new;seek_physical;read_exact", history_scenario(True, max_n1=1100 if tier == "quick" else 2100, max_n2=8 if tier == "quick" else 40, max_m=150 if tier == "quick" else 1100),
                         history_claims, max_paths=1500, time_budget=1500))
     return out
+
+
+# =============================================================================================== C16: short transfers and faults
+def with_mode(scen_builder, **kw):
+    """re-run a writer scenario builder with a different device mode: patch mk_writer_state defaults through a wrapper"""
+    def scen(I):
+        import functools
+        global mk_writer_state
+        orig = mk_writer_state
+        mk_writer_state = functools.partial(orig, **{k: (v(I) if callable(v) else v) for k, v in kw.items()})
+        try:
+            return scen_builder(I)
+        finally:
+            mk_writer_state = orig
+    return scen
+
+
+def fault_wrap(claims_ok):
+    """claims for a run with one injected device error: the call must return Err; without a fault the normal claims apply"""
+    def claims(s, I):
+        f = writer_fields(I)
+        dev = s.holder["w"].fields[f["writer"]] if "w" in s.holder else s.dev
+        faulted = any(e[0] == "fault" for e in dev.log)
+        if faulted:
+            return [("a device error makes the call in progress return Err", z3.BoolVal(s.res.vname == "Err"))]
+        return claims_ok(s, I)
+    return claims
+
+
+def short_and_fault_scenarios(tier="quick"):
+    fa = lambda I: fresh("fault_at")
+    out = []
+    table = [
+        ("write_all", w_write_all_scenario(2100), w_write_all_claims),
+        ("flush", w_simple_scenario("flush", "Write"), w_flush_claims),
+        ("physical_seek", w_simple_scenario("physical_seek", None, ["seek_pos"]), w_seek_claims),
+        ("physical_size", w_simple_scenario("physical_size"), w_size_claims),
+        ("align", w_simple_scenario("align"), w_align_claims),
+    ]
+    for nm, sc, cl in table:
+        out.append(Scenario("PagedWriter %s over a device with arbitrary short reads/writes" % nm, with_mode(sc, mode="short"), cl, max_paths=3000, time_budget=900))
+        out.append(Scenario("PagedWriter %s with one device error at any operation" % nm, with_mode(sc, fault_at=fa), fault_wrap(cl), max_paths=3000, time_budget=900))
+    return out
+
+
+def reader_mode_scenario(cached, mode="total", fault=False):
+    def scen(I):
+        init_interp(I)
+        rd, dev, st = mk_reader_state(I, cached, mode=mode, fault_at=fresh("fault_at") if fault else None)
+        n = fresh("read_n", bits=16)
+        I.path.assume(z3.ULE(n, U64(3000)))
+        holder = {"rd": rd, "buf": sym_buf("read_dst", n)}
+        o = dict(n=n, dev=dev, st=st, pre_buf=sym_buf("read_dst", n))
+        I.last_state = o
+        o["res"] = I.call_fn(I.methods[("PagedReader", "Read", "read")], [Ref(Loc(holder, "rd")), SliceRef(Loc(holder, "buf"), 0, n)])
+        o["rd"], o["buf"] = holder["rd"], holder["buf"]
+        return o
+    return scen
+
+
+def reader_fault_claims(o, I):
+    faulted = any(e[0] == "fault" for e in o["dev"].log)
+    if faulted:
+        f = reader_fields(I)
+        st = o["st"]
+        return [("a device error makes read return Err", z3.BoolVal(o["res"].vname == "Err")),
+                ("INV-reader preserved after the failed read (a cached page is still the device's page)",
+                 inv_reader(I, o["rd"], o["dev"], st["content"], st["npages"], fresh("sk_j")))]
+    return reader_read_claims(o, I)
+
+
+def reader_short_and_fault_scenarios(tier="quick"):
+    rp = ReaderReplay(_read_op, _read_extra, _read_rebuild)
+    return [
+        Scenario("PagedReader::read over a device with arbitrary short reads", reader_mode_scenario(False, mode="short"), reader_read_claims, max_paths=2000, replayer=rp),
+        Scenario("PagedReader::read with one device error at any operation", reader_mode_scenario(False, fault=True), reader_fault_claims, max_paths=2000, replayer=rp),
+        Scenario("PagedReader::read (page cached) with one device error at any operation", reader_mode_scenario(True, fault=True), reader_fault_claims, max_paths=2000, replayer=rp),
+        Scenario("PagedReader::read (page cached) with short reads and one device error", reader_mode_scenario(True, mode="short", fault=True), reader_fault_claims, max_paths=2000, replayer=rp),
+    ]
+
+
+# =============================================================================================== C17 / C08: seek_physical, align on the reader
+def reader_seek_scenario(cached):
+    def scen(I):
+        init_interp(I)
+        rd, dev, st = mk_reader_state(I, cached)
+        p = fresh("rseek_pos")
+        holder = {"rd": rd}
+        o = dict(dev=dev, st=st, p=p)
+        I.last_state = o
+        o["res"] = I.call_fn(I.methods[("PagedReader", None, "seek_physical")], [Ref(Loc(holder, "rd")), p])
+        o["rd"] = holder["rd"]
+        return o
+    return scen
+
+
+def reader_seek_claims(o, I):
+    f = reader_fields(I)
+    st = o["st"]
+    npages, content = st["npages"], st["content"]
+    j = fresh("sk_j")
+    p = o["p"]
+    inside = z3.ULT(p, npages * U64(PAGE))
+    out = [("Ok iff the position is inside the file", z3.BoolVal(o["res"].vname == "Ok") == inside)]
+    if o["res"].vname == "Ok":
+        want = p - U64(4) * udiv(p, PAGE)
+        out.append(("logical cursor = position minus 4 per preceding page (independent of the earlier cursor and cache)",
+                    z3.And(o["res"].fields[0] == want, o["rd"].fields[f["offset"]] == want)))
+    else:
+        out.append(("cursor unchanged on Err", o["rd"].fields[f["offset"]] == st["offset"]))
+    out.append(("INV-reader preserved", inv_reader(I, o["rd"], o["dev"], content, npages, j)))
+    return out
+
+
+def reader_align_scenario():
+    def scen(I):
+        init_interp(I)
+        rd, dev, st = mk_reader_state(I, False)
+        holder = {"rd": rd}
+        o = dict(dev=dev, st=st)
+        I.last_state = o
+        o["res"] = I.call_fn(I.methods[("PagedReader", None, "align")], [Ref(Loc(holder, "rd"))])
+        o["rd"] = holder["rd"]
+        return o
+    return scen
+
+
+def reader_align_claims(o, I):
+    f = reader_fields(I)
+    st = o["st"]
+    off = st["offset"]
+    pad = (U64(4) - (off & U64(3))) & U64(3)
+    fits = z3.Or(pad == U64(0), z3.ULE(off + pad, st["npages"] * U64(PAYLOAD)))
+    out = [("Ok iff the aligned cursor stays inside the logical file", z3.BoolVal(o["res"].vname == "Ok") == fits)]
+    if o["res"].vname == "Ok":
+        out.append(("cursor moved to the next multiple of 4", o["rd"].fields[f["offset"]] == off + pad))
+    else:
+        out.append(("cursor unchanged on Err", o["rd"].fields[f["offset"]] == off))
+    return out
+
+
+def reader_misc_scenarios():
+    return [
+        Scenario("PagedReader::seek_physical from INV state, cache empty", reader_seek_scenario(False), reader_seek_claims),
+        Scenario("PagedReader::seek_physical from INV state, page cached", reader_seek_scenario(True), reader_seek_claims),
+        Scenario("PagedReader::align from INV state", reader_align_scenario(), reader_align_claims),
+    ]
